@@ -366,7 +366,13 @@ def sequential_part(cs, log, ctx, hyruns, managers):
         nb = cs.between("nb", 1, min(ns, 12))
         ids = [f"s{j:04d}" for j in range(ns)] if cs.flip("str", 50) \
             else [1000 + 7 * j for j in range(ns)]
-        log.ev("sitesweep", ns, nb)
+        # sites come in the caller's order, which need not be sorted
+        order = cs.choice("order", ["ascending", "descending", "interleaved"])
+        if order == "descending":
+            ids = ids[::-1]
+        elif order == "interleaved":
+            ids = ids[1::2] + ids[0::2]
+        log.ev("sitesweep", ns, nb, order)
         log.kind("sitesweep")
         try:
             sb = hyruns.SiteBatch(ids, nb)
@@ -377,7 +383,9 @@ def sequential_part(cs, log, ctx, hyruns, managers):
                             f"{e!r}", "sitesweep")
         for j, x in enumerate(ids):
             want = [b for b in range(nb) if j in model_batch(ns, nb, b)][0]
-            if owners[j] != want or x not in plain(lists[want]):
+            if owners[j] != want or x not in plain(lists[want]) or \
+                    plain(lists[want]) != [ids[q] for q in
+                                           model_batch(ns, nb, want)]:
                 raise Violation("sitebatch_search_wrong",
                                 f"SiteBatch({ns} sites, {nb} batches): site "
                                 f"#{j} is in batch {want}, search says "
@@ -494,6 +502,13 @@ def run(cs, log, ctx):
             s0 = cs.draw("site0", 1000)
             sites = [f"S{s0 + 3 * j:06d}" if site_kind == "str"
                      else s0 + 3 * j for j in range(nsites)]
+            site_order = cs.choice("site_order", ["ascending", "descending",
+                                                  "rotated", "ascending"])
+            if site_order == "descending":
+                sites = sites[::-1]
+            elif site_order == "rotated":
+                r = nsites // 3 + 1
+                sites = sites[r:] + sites[:r]
             starts = [cs.draw(f"start{i}", 3000) for i in range(nbatch)]
             backoff = [10 + cs.draw(f"backoff{i}", 3000) for i in range(nbatch)]
             aspath = [cs.flip(f"aspath{i}", 50) for i in range(nbatch)]
